@@ -42,8 +42,11 @@ CLAIMED = {
             "call made by the model reports whether the exception was an ExpressionEvaluationException."),
     "C18": ("Proved for every evaluator, state and history of API calls (all but the persist round trip = C05), also for "
             "calls that raise: contexts/routes only grow at the end, no record is removed or moved, id/route/ctxs.in/prev of "
-            "an existing record never change. Tested, not proved: once next is decided, status and next are frozen (needs "
-            "the provider-protocol invariant).",
+            "an existing record never change. A completed record with no retries left is frozen (status, decisions, published "
+            "context, retry record) through every history including reruns, late, duplicate and malformed events; with "
+            "retries left the same holds through every operation except a further event addressed to that record (one "
+            "completion report per attempt), and a witness shows a duplicate report can reopen it otherwise. A retried "
+            "attempt decides no transition and publishes nothing.",
             "Python aliasing is outside a Gallina model; it is tied by the live-vs-model comparison and by C05."),
 }
 
